@@ -423,11 +423,16 @@ def run(ctx):
         ebg = ExprBuilder(g)
         cons = g.calls_to(LBR + "::consume")
         second = [c for c in cons if not is_call(strip(ebg.operand(c.args[1])), CORE + "::roll")]
-        z1 = cond_switches(g, lambda x: x.k == "bin" and x[1] == "Eq" and mentions_call(x, CORE + "::roll")
-                           and any(y.k == "const" and y[1] == 0 for y in (x[2], x[3])), ebg)
-        z2 = cond_switches(g, lambda x: x.k == "bin" and x[1] == "Eq" and mentions_call(x, "[T]::len") and
-                           mentions_call(x, LBR + "::buffer"), ebg)
-        if second and z1 and z2 and not guarded(g, [second[0].bb], z1, True) and not guarded(g, [second[0].bb], z2, True):
+        # the two comparisons, wherever their answers go (two nested ifs, an `&&`, a named flag): with either of them saying
+        # "no" the leftover is not discarded
+        from ..flow import cmp_stmts, excluded_by_test
+        z1 = [(bb_, j_, 0) for bb_, j_, op_, a_, b_ in cmp_stmts(g, ebg) if op_ == "Eq" and (mentions_call(a_, CORE + "::roll") or mentions_call(b_, CORE + "::roll"))
+              and any(y.k == "const" and y[1] == 0 for y in (a_, b_))]
+        z2 = [(bb_, j_, 0) for bb_, j_, op_, a_, b_ in cmp_stmts(g, ebg) if op_ == "Eq" and
+              any(mentions_call(y, "[T]::len") and mentions_call(y, LBR + "::buffer") for y in (a_, b_))]
+        sites_ = [c_.bb for c_ in second]
+        if second and z1 and z2 and excluded_by_test(g, z1, sites_) and \
+                all(s_ not in Sccp(g, stmt_values={(bb_, j_): I(0)}).run([(bb_, {})]).exec_blocks for bb_, j_, _ in z2 for s_ in sites_):
             r.ok("guard", "leftover context discarded only when nothing was consumed and nothing was read", fn=g)
         else:
             r.bad("guard", "the forced quit is not guarded by consumed == 0 ∧ old length == new length", fn=g)
